@@ -13,11 +13,11 @@ class DateTimeUnixTimestamp(Validator):
 
         try:
             seconds = float(value)
-        except ValueError:
+        except (ValueError, OverflowError):
             return self.raise_exception(msg=f'Could parse {value} to float.', value=value)
 
         try:
             return datetime(year=1970, month=1, day=1) + timedelta(seconds=seconds)
-        except OverflowError:
+        except (OverflowError, ValueError):
             return self.raise_exception(
                 msg=f'Date value out of range. Make sure you send SECONDS since 1970. Got: {value}', value=value)
